@@ -254,7 +254,7 @@ partial def stepCodec (st : TmplSt) (cs : CodecSt) (toks : List String) : Option
     | some dp, some sp, some nb, some td, some tsrc =>
       if dp < 0 ∨ sp < 0 then some (st, cs, "neg")      -- outside the model (and the property)
       else
-        match createDatasubset T defaultFuel td with
+        match createDatasubsetB T defaultFuel td with
         | .error _ => some (st, cs, "diverge")
         | .ok (blank, _) =>
           let (rc, subs) := mergeDataset (sameTemplate td tsrc) blank.nodes (st.subsets.toList.map (·.nodes))
